@@ -154,7 +154,7 @@ func joinInts(xs []int) string {
 // execTables runs one case on the real tables and on builtin-map oracles.
 func execTables[K comparable](c hx.Case, mode Mode, kc *keyCodec[K]) hx.Result {
 	if mode.Watchdog == 0 {
-		mode.Watchdog = 2 * time.Second
+		mode.Watchdog = 10 * time.Second
 	}
 	_, numeric := any(*new(K)).(int)
 	dflt := "fnv"
